@@ -19,6 +19,11 @@ parameter spec (first word of every request): `<dividehex>/<hasattrs 0|1>/<attrh
 * `c16carry` : `<stmt> <stmt> ..` with `e` | `d:<W|LW|IB|IW>[+<..>]` | `j:<cc 0..7|->:<addr hex>`
                                                      → `model=<hex|err> spec=<hex> ok=<0|1> eq=<0|1>`
    (Z380 DDIR hand-over: model of MakeCode_Z80/DecodeDDIR/DecodeJP over the lines vs. the SPEC's code of the statements)
+* `c16incl`  (Driver/C16Incl.lean): `<m68k|msp|tms|avr> <org> <tok> ..` with `e` | `l:<n>` | `b:<lab|->:<hex>` | `n:<lab|->` | `j:<lab|->:<target>` | `w:<lab|->:<target>` |
+               `o:<lab|->` | `r:<lab|->:<n>` (n bytes reserved) | `s:<lab|->` (reserved word) | `i:<lab|->` .. `)` (INCLUDE with the lines of its file) | `m:<lab|->` .. `)` (call of a parameterless macro with its body)
+                                                     → `model=<hex|undef> flat=<hex|undef> spec=<hex|undef> thm=<0|1> dbl=<0|1> eq=<0|1>`
+   (Model/InclPad over the tree, over the flat text, Spec/InclPad.image of the flat text; thm = instance of C16_include_immaterial,
+   dbl = statistic: a label-only line directly in front of a labelled statement occurs, eq = flat model image = spec image)
 * `c16sweep` : `<pspec> <padhex> <n>,<n>,.. <seg0hex> <seg1hex> ..`
                                                      → `k=<lines> ck=<checksum of all characters> same=<0|1> bufok=<0|1> hitsarg=<m> hitscomm=<m> aplen=<first>-<last> lab= op= rawop= attr= n= args=`
    (length sweep: line(n) = seg0 ++ pad ++ seg1 ++ pad ++ .. with n pad characters in total, spread evenly over the holes, the
